@@ -1,6 +1,8 @@
 package main
 
 import (
+	"fmt"
+	"go/types"
 	"sort"
 
 	"golang.org/x/tools/go/ssa"
@@ -66,4 +68,41 @@ func dstCommon(site ssa.Instruction) *ssa.CallCommon {
 		return x.Common()
 	}
 	return nil
+}
+
+// applyMapUpdateAnchors: "at mapupdate#n before assert ..." clauses with the identifiers key and value bound.
+func (e *Engine) applyMapUpdateAnchors(s *State, fr *Frame, x *ssa.MapUpdate, k, v Term) {
+	c := fr.contract
+	if c == nil || len(c.Ats) == 0 {
+		return
+	}
+	// ordinal among MapUpdate instructions of the function, in block order
+	ord := 0
+	for _, b := range fr.fn.Blocks {
+		for _, in := range b.Instrs {
+			if mu, ok := in.(*ssa.MapUpdate); ok {
+				ord++
+				if mu == x {
+					goto found
+				}
+			}
+		}
+	}
+found:
+	anchor := fmt.Sprintf("mapupdate#%d", ord)
+	mt := x.Map.Type().Underlying().(*types.Map)
+	for _, at := range c.Ats {
+		if at.Anchor != anchor || at.Kind != "assert" {
+			continue
+		}
+		vars := map[string]Value{"key": s.fromTerm(k, mt.Key()), "value": s.fromTerm(v, mt.Elem())}
+		vtypes := map[string]types.Type{"key": mt.Key(), "value": mt.Elem()}
+		t, err := e.evalClause(s, fr, at.Clause, vars, vtypes)
+		if err != nil {
+			e.bail("at %s assert %q: %v", anchor, at.Clause.Src, err)
+		}
+		name := fmt.Sprintf("%s#assert@%s:%s", shortKey(funcKey(fr.fn)), anchor, at.Clause.Tag)
+		s.addObligation("assert", name, at.Clause.Tag, x.Pos(), t, at.Clause.Src)
+		s.assume(t)
+	}
 }
